@@ -44,6 +44,7 @@ func (r ilResult) Coverage() map[string]any {
 		"multi_tx_operation_kinds": r.Kinds, "base_states": r.StatesUsed, "base_state_depth_bound": r.DepthBound,
 		"max_ops_injected_at_a_boundary": r.MaxInjected, "cases": r.Cases, "cases_boundary_reached": r.Boundaries,
 		"cases_without_boundary": r.NoBoundary, "explained_by_order": r.Linearized, "store_instances": r.Executions,
+		"cases_injected_ops_blocked_behind_a_lock": atomic.LoadInt64(&injectedBlocked),
 		"exhaustive": r.Exhaustive, "cap": r.Cap,
 	}
 }
@@ -209,24 +210,54 @@ func injectedRun(be string, sp Space, hist []string, a string, inj []string, tx 
 	}
 	pa, injOps := all[0], all[1:]
 	var (
-		n      int64
-		active bool
-		injRes []result
-		injErr error
+		hmu     sync.Mutex
+		n       int64
+		active  bool
+		injRes  []result
+		injErr  error
+		pending chan struct{}
 	)
 	o.setBefore(func() {
+		hmu.Lock()
 		if active {
+			hmu.Unlock()
 			return
 		}
 		n++
-		if n == tx {
-			active = true
-			injRes, injErr = o.runOps(injOps)
-			active = false
-			reached = true
+		if n != tx {
+			hmu.Unlock()
+			return
 		}
+		active = true
+		hmu.Unlock()
+		// The other thread's operations run on a goroutine of their own: if a holds a
+		// lock of the store across this transaction boundary (e.g. the KV store's
+		// sequence-number mutex), an injected operation that needs the same lock can
+		// only finish after a resumes. Executing it on a's goroutine would self-deadlock
+		// the harness. In that case a is resumed and the injected operations are joined
+		// after it: they still overlap a in real time, so the same sequential orders
+		// remain the allowed explanations. (The grace period only decides "blocked
+		// behind a"; it is not an oracle.)
+		done := make(chan struct{})
+		go func() {
+			defer close(done)
+			injRes, injErr = o.runOps(injOps)
+		}()
+		select {
+		case <-done:
+			hmu.Lock()
+			active = false
+			hmu.Unlock()
+		case <-time.After(injectGrace):
+			atomic.AddInt64(&injectedBlocked, 1)
+			pending = done
+		}
+		reached = true
 	})
 	ra := o.b.exec(pa)
+	if pending != nil {
+		<-pending
+	}
 	o.setBefore(nil)
 	if injErr != nil {
 		return nil, "", false, injErr
@@ -289,6 +320,13 @@ func orderAt(a string, inj []string, pos int) []string {
 	o = append(o, inj[pos:]...)
 	return o
 }
+
+// injectGrace is how long the injected operations may run before they are considered
+// blocked behind a lock held by the interrupted operation; injectedBlocked counts those cases.
+var (
+	injectGrace     = 10 * time.Second
+	injectedBlocked int64
+)
 
 type ilCase struct {
 	be    string
